@@ -29,6 +29,37 @@ theorem Inv.lower {st : State κ} (hI : Inv cfg st) : ∀ k r, get st.recs k = s
 theorem inv_init : Inv cfg ({} : State κ) :=
   ⟨List.nodup_nil, List.nodup_nil, by intro a k r; simp, by intro k r h; simp at h, by intro k r h; simp at h⟩
 
+/-! ### the names of the stored records -/
+
+omit [DecidableEq κ] in
+theorem mem_storedNames_iff {st : State κ} {n : Bytes} :
+    n ∈ storedNames st ↔ ∃ k r, (k, r) ∈ st.recs ∧ r.name = n := by
+  unfold storedNames allRecords
+  simp only [List.mem_map]
+  constructor
+  · rintro ⟨r, ⟨⟨k, r'⟩, hm, rfl⟩, rfl⟩; exact ⟨k, r', hm, rfl⟩
+  · rintro ⟨k, r, hm, rfl⟩; exact ⟨r, ⟨(k, r), hm, rfl⟩, rfl⟩
+
+theorem KV.get_some_mem {ν : Type} {m : List (κ × ν)} {k : κ} {v : ν} (h : get m k = some v) :
+    (k, v) ∈ m := by
+  induction m with
+  | nil => simp at h
+  | cons e m ih =>
+    obtain ⟨k', v'⟩ := e
+    rw [get_cons] at h
+    split at h
+    · rename_i hk; cases h; subst hk; exact List.mem_cons_self ..
+    · exact List.mem_cons_of_mem _ (ih h)
+
+theorem mem_storedNames_of_get {st : State κ} {k : κ} {r : Record} (h : get st.recs k = some r) :
+    r.name ∈ storedNames st :=
+  mem_storedNames_iff.mpr ⟨k, r, KV.get_some_mem h, rfl⟩
+
+theorem mem_storedNames {st : State κ} (hI : Inv cfg st) {n : Bytes} (h : n ∈ storedNames st) :
+    ∃ k r, get st.recs k = some r ∧ r.name = n := by
+  obtain ⟨k, r, hm, hn⟩ := mem_storedNames_iff.mp h
+  exact ⟨k, r, (mem_iff_get hI.recsNodup k r).mp hm, hn⟩
+
 /-! ### effect lemmas -/
 
 theorem getRecordByName_eq {st : State κ} {name : Bytes} {k : κ}
